@@ -4,6 +4,7 @@ import (
 	"verifharness/gengram"
 
 	"github.com/alecthomas/participle/v2"
+	"github.com/alecthomas/participle/v2/lexer"
 )
 
 // Hand-written grammars with Go-level features the generated families lack: anonymous struct types (two with the
@@ -34,6 +35,30 @@ type esAnonRec struct {
 	} `@@`
 }
 
+// a lexer definition whose symbol table gives two names to one token type: references print under the name the grammar uses
+type aliasDef struct{ lexer.Definition }
+
+func (a aliasDef) Symbols() map[string]lexer.TokenType {
+	out := map[string]lexer.TokenType{}
+	for k, v := range a.Definition.Symbols() {
+		out[k] = v
+	}
+	out["Word"] = out["Ident"]
+	out["Number"] = out["Int"]
+	out["Name"] = out["Ident"]
+	return out
+}
+
+type esAlias struct {
+	W string   `@Word`
+	N []string `@Number*`
+	I string   `@Ident?`
+	M string   `@Name?`
+}
+
+// staticExpect: substrings the String() of a static case must contain
+var staticExpect = map[string][]string{"static-alias": {"<word>", "<number>*", "<ident>?", "<name>?"}}
+
 var staticEbnf = map[string]struct {
 	root string
 	mk   func() (gengram.Built, error)
@@ -41,4 +66,7 @@ var staticEbnf = map[string]struct {
 	"static-embedded": {"EsEmbedded", func() (gengram.Built, error) { return participle.Build[esEmbedded]() }},
 	"static-anon-two": {"EsAnonTwo", func() (gengram.Built, error) { return participle.Build[esAnonTwo]() }},
 	"static-anon-rec": {"EsAnonRec", func() (gengram.Built, error) { return participle.Build[esAnonRec]() }},
+	"static-alias": {"EsAlias", func() (gengram.Built, error) {
+		return participle.Build[esAlias](participle.Lexer(aliasDef{lexer.TextScannerLexer}))
+	}},
 }
